@@ -30,6 +30,10 @@ def zl(n):
     return "(%d)%%Z" % int(n)
 
 
+def f1(x):
+    return flit(x) + "%float"
+
+
 def F(n, d=1):
     return Fraction(n, d)
 
@@ -258,7 +262,7 @@ def run(ctx):
     rng = ctx.rng
     lyap_tol = source_literal_lyap_tol()
     PRE = ("Definition LYAP_TOL : float := %s.\nDefinition LYAP_TOLQ : Q := %s.\nDefinition VTOL : float := %s.\n"
-           % (flit(lyap_tol), qlit(frac(lyap_tol)), flit(TOL_VAL)))
+           % (f1(lyap_tol), qlit(frac(lyap_tol)), f1(TOL_VAL)))
 
     # ================================================================ Lyapunov
     kinds = ["random"] * 6 + ["slow", "diag", "zeroB", "scalar", "scalar", "cap", "cap"]
@@ -421,7 +425,7 @@ def run(ctx):
         Xl = np.atleast_2d(X).tolist() if status == "ok" else []
         scode = {"ok": 0, "ValueError": 1, "LinAlgError": 2}[status]
         if gamma is not None:
-            cases.append(tup(natlit(ns), natlit(nc), flit(gamma), flist2(Af), flist2(Bf), flist2(Qf), flist2(Rf), flist2(Nf),
+            cases.append(tup(natlit(ns), natlit(nc), f1(gamma), flist2(Af), flist2(Bf), flist2(Qf), flist2(Rf), flist2(Nf),
                              zl(scode), flist2(Xl) if Xl else "(@nil (list float))"))
             meta.append(dict(inp, gamma=gamma))
             if ns <= 2 and nc <= 2 and its <= 7 and status == "ok" and len(qcases) < (30 if thorough else 12):
@@ -457,7 +461,7 @@ def run(ctx):
                 ctx.fail("ricc_not_stabilising", "%s: closed loop spectral radius >= 1" % method, minp, Xm.tolist(), "rho = %.6g" % o["rho"])
     ctx.count("ricc:gamma_equals_independent_recomputation", n_gamma_same)
     PRE2 = PRE + "Definition RTOL : float := %s.\nDefinition RTOLQ : Q := %s.\nDefinition RMAX : Z := %s.\n" % (
-        flit(ricc_tol), qlit(frac(ricc_tol)), zl(ricc_maxit))
+        f1(ricc_tol), qlit(frac(ricc_tol)), zl(ricc_maxit))
     ok = ("fun c => let '(ns, nc, gamma, A, B, Q, R, N, sc, X) := c in "
           "match solve_discrete_riccati RTOL RMAX ns nc gamma A B Q R N with "
           "| RiccOk _ G => Z.eqb sc 0%Z && Fss_close VTOL G X | RiccMaxIter => Z.eqb sc 1%Z | RiccSingular => Z.eqb sc 2%Z | RiccNoIter => false end")
@@ -467,7 +471,7 @@ def run(ctx):
         m = meta[i]
         ctx.mismatch("C06.Model.solve_discrete_riccati (NumF) vs _matrix_eqn.solve_discrete_riccati(doubling)", m,
                      model=ctx.coq_eval(IMPORTS, "solve_discrete_riccati RTOL RMAX %s %s %s %s %s %s %s %s" % (
-                         natlit(m["ns"]), natlit(m["nc"]), flit(m["gamma"]), flist2(fl(m["A"])), flist2(fl(m["B"])),
+                         natlit(m["ns"]), natlit(m["nc"]), f1(m["gamma"]), flist2(fl(m["A"])), flist2(fl(m["B"])),
                          flist2(fl(m["Q"])), flist2(fl(m["R"])), flist2(fl(m["N"]))), preamble=PRE2)[:1500])
     # the same text at Q (exact arithmetic) on small systems with few doubling steps
     okq = ("fun c => let '(ns, nc, gamma, A, B, Q, R, N, X) := c in "
